@@ -89,11 +89,20 @@ structure GInv (s : St) : Prop where
   scanc : s.spc = .cancelled → s.sw = true → s.gjoin = true
   soff : s.spc = .off → s.dpc = .top ∨ s.dpc = .dtop
 
+/-- the cancellation request for the signals thread (deferred): when it is made, what it waits for, and that dsh()
+    with the repaired shutdown returns only after the thread has ended -/
+structure CInv (s : St) : Prop where
+  fin : s.scan = true → s.dpc = .finishing ∨ s.dpc = .returned
+  joined : s.scan = true → s.sw = true → s.gjoin = true
+  cs : s.spc = .cancelled → s.scan = true
+  ret : s.dpc = .returned → s.scan = true ∧ (s.sw = true → s.spc = .cancelled)
+
 structure Inv (s : St) : Prop where
   m : MInv s
   t : TInv s
   f : FInv s
   w : GInv s
+  c : CInv s
 
 theorem pc_init (v g sw f n b t0 j) : pc (init v g sw f n b t0) j = .idle := by
   simp [pc, init, List.getD_eq_getElem?_getD, List.getElem?_replicate]
@@ -144,7 +153,11 @@ theorem ginv_init (v : Variant) (g sw : Bool) (f n : Nat) (b : Bool) (t0 : Nat) 
   refine ⟨?_, ?_, ?_, ?_, ?_, ?_, ?_, ?_, ?_, ?_, ?_⟩ <;> simp [init, GPC.holds]
   omega
 
+theorem cinv_init (v : Variant) (g sw : Bool) (f n : Nat) (b : Bool) (t0 : Nat) : CInv (init v g sw f n b t0) := by
+  refine ⟨?_, ?_, ?_, ?_⟩ <;> simp only [init] <;> (try split) <;> simp
+
 theorem inv_init (v : Variant) (g sw : Bool) (f n : Nat) (b : Bool) (t0 : Nat) : Inv (init v g sw f n b t0) :=
-  ⟨minv_init v g sw f n b t0, tinv_init v g sw f n b t0, finv_init v g sw f n b t0, ginv_init v g sw f n b t0⟩
+  ⟨minv_init v g sw f n b t0, tinv_init v g sw f n b t0, finv_init v g sw f n b t0, ginv_init v g sw f n b t0,
+   cinv_init v g sw f n b t0⟩
 
 end PdshVerif.Dsh.Sig
